@@ -57,6 +57,53 @@ theorem dial_only_when_no_idle (p : Pool) (now : Nat) :
   cases hg : p.getIdle with
   | mk r p' => cases r <;> simp
 
+/-! ### an idle session is not lost to another session's arrival
+
+The idle map is keyed by the session's `seq`; an insertion under a key that is already there replaces the entry.  Which
+key `add_idle_session` uses and where a session's `seq` comes from are regenerated from the source (`Gen.poolKey`,
+`Gen.seqSource`; the extractor fails closed on any other shape). -/
+
+/-- Obligations on the code: the key is the session's own `seq`, and `seq` comes from one process-wide counter that is
+advanced for every session — so no two sessions of a process ever carry the same key. -/
+theorem gen_pool_key_unique : Gen.poolKey = .sessionSeq ∧ Gen.seqSource = .processCounter := by decide
+
+theorem insertSorted_keeps (e : PEntry) : ∀ (l : List PEntry), (∀ x ∈ l, x.seq ≠ e.seq) →
+    ∀ x ∈ l, x ∈ insertSorted e l := by
+  intro l
+  induction l with
+  | nil => intro _ x hx; cases hx
+  | cons y ys ih =>
+    intro hne x hx
+    have hy : y.seq ≠ e.seq := hne y List.mem_cons_self
+    unfold insertSorted
+    by_cases h1 : e.seq < y.seq
+    · simp only [h1, if_true]; exact List.mem_cons_of_mem _ hx
+    · have h2 : (e.seq == y.seq) = false := by
+        cases h : e.seq == y.seq with
+        | false => rfl
+        | true => exact absurd (by simpa using h : e.seq = y.seq).symm hy
+      simp only [h1, if_false, h2, Bool.false_eq_true]
+      rcases List.mem_cons.mp hx with hx | hx
+      · rw [hx]; exact List.mem_cons_self
+      · exact List.mem_cons_of_mem _ (ih (fun z hz => hne z (List.mem_cons_of_mem _ hz)) x hx)
+
+/-- T13.4 `add_keeps_other_sessions`: a session that arrives under a key no idle session carries leaves every idle
+session where it is — a healthy idle session is never dropped from the pool (un-reusable and un-reaped) because another
+one was added. -/
+theorem add_keeps_other_sessions (p : Pool) (seq sess now : Nat) (h : ∀ x ∈ p.idle, x.seq ≠ seq) :
+    ∀ x ∈ p.idle, x ∈ (p.addIdle seq sess now).idle := by
+  intro x hx
+  unfold Pool.addIdle
+  split
+  · exact hx
+  · exact insertSorted_keeps { seq := seq, sess := sess, since := now } p.idle h x hx
+
+/-- the excluded case, refuted by a witness: two sessions under one key (what renumbering inside the pool produced in
+seed C13e) — the healthy idle session 3 is gone from the map. -/
+theorem same_key_evicts_refuted :
+    insertSorted { seq := 1, sess := 7, since := 0 } [{ seq := 1, sess := 3, since := 0 }]
+      = [{ seq := 1, sess := 7, since := 0 }] := by decide
+
 /-- the exact behaviour of the current code, for the record: n sequential requests from an
 empty pool dial ⌈n/2⌉ times (instances checked by kernel evaluation; the e2e run compares the
 real client with `sequentialRun` for every n it tries). -/
